@@ -289,6 +289,19 @@ class ConstructInterface(Interface):
                             pats=[[t.select(o.buf, i)]])
             st.assume(t.implies(t.and_(same, t.le(t.add(o.pos, n), o.len)), t.and_(ok, t.app('pyeq', t.BOOL, val, ret), t.eq(end, t.add(o.pos, n)))))
 
+    REPEATERS = ('Array', 'GreedyRange', 'RepeatUntil')      # the shapes C07 names; LazyArray._parse does not maintain _index (outside C07's list)
+
+    def index_obligation(self, eng, st, H, D, c):
+        """C07: inside a repeater every element is processed with _index = its position (checked where the element is called)"""
+        cls = eng.fnname.split('.')[0].split('[')[-1]
+        k = st.ghost.get('loop_k')
+        if cls not in self.REPEATERS or k is None or eng.models.ghost_mode:
+            return
+        want = t.app('VInt', t.VAL, k)
+        got = t.T(t.VAL, 'select', (t.T('Fields', 'select', (H, c)), S('_index')))
+        has = t.T(t.BOOL, 'select', (t.T('Keys', 'select', (D, c)), S('_index')))
+        eng.emit(st, '%s/element-is-processed-with-_index-equal-to-its-position' % eng.fnname, t.and_(has, t.eq(got, want)), kind='call-pre', tags=('C07',))
+
     def sub_parse(self, eng, sc, stream, ctx, path, st):
         o = st.get(stream) if isinstance(stream, VRef) else None
         if isinstance(o, OObject) and o.cls == 'RestreamedBytesIO':
@@ -302,6 +315,7 @@ class ConstructInterface(Interface):
         H, D = self.H(st)
         c = self.ctx_addr(eng, ctx, st)
         st.ghost.setdefault('first_sub_ctx', (c, H, D))
+        self.index_obligation(eng, st, H, D, c)
         out = []
         if o.model == 'adv':
             ok = fresh('P_ok', t.BOOL)
@@ -383,6 +397,7 @@ class ConstructInterface(Interface):
         H, D = self.H(st)
         c = self.ctx_addr(eng, ctx, st)
         st.ghost.setdefault('first_sub_ctx', (c, H, D))
+        self.index_obligation(eng, st, H, D, c)
         ov = eng.to_dyn(obj, st)
         out = []
         if o.model == 'adv':
